@@ -65,10 +65,42 @@ pub fn task_ids(pid: i32) -> Vec<i32> {
 }
 
 pub fn task_state(pid: i32, tid: i32) -> char {
+    // A task that has passed PTRACE_EVENT_EXIT runs only kernel exit code (PF_EXITING): it is
+    // reported as 'E' (dying), never as a running thread.
     let st = std::fs::read_to_string(format!("/proc/{pid}/task/{tid}/stat")).unwrap_or_default();
-    st.rfind(')')
-        .and_then(|p| st[p + 1..].trim().chars().next())
-        .unwrap_or('?')
+    let Some(p) = st.rfind(')') else {
+        return '?';
+    };
+    let rest: Vec<&str> = st[p + 1..].split_whitespace().collect();
+    let state = rest.first().and_then(|s| s.chars().next()).unwrap_or('?');
+    // fields after the command: state(0) ppid(1) pgrp(2) session(3) tty(4) tpgid(5) flags(6)
+    let flags = rest.get(6).and_then(|f| f.parse::<u64>().ok()).unwrap_or(0);
+    const PF_EXITING: u64 = 0x4;
+    if flags & PF_EXITING != 0 && state != 'Z' && state != 'X' {
+        return 'E';
+    }
+    state
+}
+
+/// State of a task for the all-stop monitor. A task that is neither in tracing stop nor dead may be
+/// a thread that has passed PTRACE_EVENT_EXIT and is running the kernel's exit path (it can no longer
+/// execute user code, but is still listed as R until the scheduler lets it finish). Such a task
+/// disappears or becomes a zombie by itself; a thread that is really alive does not. So a task
+/// seen outside tracing stop is polled for up to `patience_ms` and reported dead ('X') if it goes
+/// away, else with its last live state.
+pub fn task_state_settled(pid: i32, tid: i32, patience_ms: u64) -> (char, u64) {
+    let t0 = std::time::Instant::now();
+    loop {
+        let s = task_state(pid, tid);
+        let s = if s == '?' { 'X' } else { s };
+        if matches!(s, 't' | 'Z' | 'X' | 'E') {
+            return (s, t0.elapsed().as_millis() as u64);
+        }
+        if t0.elapsed().as_millis() as u64 >= patience_ms {
+            return (s, patience_ms);
+        }
+        std::thread::sleep(std::time::Duration::from_micros(500));
+    }
 }
 
 pub fn regs_json(tid: i32) -> Value {
@@ -119,6 +151,19 @@ pub fn regs_json(tid: i32) -> Value {
         "fs": regs.fs, "gs": regs.gs, "fs_base": regs.fs_base, "gs_base": regs.gs_base,
         "fp_hash": fphash,
     })
+}
+
+pub fn rip_of(tid: i32) -> Option<u64> {
+    let mut regs: libc::user_regs_struct = unsafe { std::mem::zeroed() };
+    let r = unsafe {
+        libc::ptrace(
+            libc::PTRACE_GETREGS,
+            tid,
+            0usize,
+            &mut regs as *mut _ as usize,
+        )
+    };
+    if r < 0 { None } else { Some(regs.rip) }
 }
 
 pub fn debug_regs(tid: i32) -> Option<Vec<u64>> {
